@@ -20,6 +20,17 @@ ASSUMPTIONS = ['results are TestResult objects (NOT_A_TEST entries are outside t
 
 LABELS = ['meal', 'day', 'who', 'x']
 VALUES = ['spam', 'egg', 'bacon', 'lunch', 'Wednesday', '']
+NUMVALUES = [2.0, 14.06, 3, -0.5, 7, 1e-3]       # label values need not be text (a temperature, a number of batches)
+
+
+def values(case):
+    return NUMVALUES if case.get('numlabels') else VALUES
+
+
+def vname(case, val):
+    vals = values(case)
+    found = [i for i, v in enumerate(vals) if type(v) is type(val) and v == val]
+    return f'a{found[0]}' if found else f'?{val!r}'
 
 
 def gen(rng, tier, run):
@@ -54,7 +65,7 @@ def gen(rng, tier, run):
         by_labels = [rng.choice(pool) for _ in range(rng.choice([1, 1, 2, 2, 3]))]
         if rng.random() < 0.8:
             by_labels = list(dict.fromkeys(by_labels))
-    return {'tasks': tasks, 'byLabels': by_labels}
+    return {'tasks': tasks, 'byLabels': by_labels, 'numlabels': rng.random() < 0.2}
 
 
 def shrink(case):
@@ -109,7 +120,7 @@ def build_task_results(case):
             res = []
             for r in tsk['results']:
                 test = cls['StubTest'](name=f"t{r['name']}", description=f"d{r['fp']}",
-                                       labels={k: VALUES[v] for k, v in r['labels']})
+                                       labels={k: values(case)[v] for k, v in r['labels']})
                 fps[fingerprint(test)] = r['fp']
                 res.append(cls['StubResult'](test, r['verdict']))
             sec['result'] = res
@@ -177,7 +188,7 @@ def run_impl(case, run):
                 test.evaluate()
                 res = test.evaluate()
                 out['byLabels'] = {
-                    'rows': [[[f'a{VALUES.index(v)}' for v in row['labels']], row['OK'], row['KO'], row['total']]
+                    'rows': [[[vname(case, v) for v in row['labels']], row['OK'], row['KO'], row['total']]
                              for row in res.classify],
                     'nLabels': res.n_labels, 'bool': bool(res), 'missing': res.nb_missing_labels(),
                     'oracles': [bool(x) for x in res.oracles()]}
